@@ -183,6 +183,12 @@ def r3_determinism(ctx, rule="C01.R3"):
                         consumer = cons[0]
                     elif callers:
                         consumer = "returned to %d callers: %s" % (len(callers), cons)
+                if consumer == "next" and name in ("values_mut", "iter_mut") and _in_place_update_loop(fn, t):
+                    consumer = "in-place update of every entry"
+                    ctx.ok(rule, key, "%s:%s" % (fn.file, t.get("ln")),
+                           "every entry is updated independently through its own reference; nothing else is "
+                           "computed in the loop")
+                    continue
                 if consumer in ORDER_INSENSITIVE:
                     ctx.ok(rule, key, "%s:%s" % (fn.file, t.get("ln")), "consumed by order-insensitive `%s`" % consumer)
                 elif (owner.path if owner else fn.path) in allowed:
@@ -197,6 +203,33 @@ def r3_determinism(ctx, rule="C01.R3"):
     if n_fns < 1500:
         raise CheckError("only %d functions reachable from the pipeline entry points" % n_fns)
     ctx.require(rule, 3)
+
+
+def _in_place_update_loop(fn, t):
+    """`for v in map.values_mut() { ..*v.. }`: the loop around the iterator's next() calls nothing
+    else and stores only through the yielded reference: the result cannot depend on the order."""
+    body = fn.body
+    nexts = [b for b, t2 in body.calls() if mir.callee_path(t2).split("::")[-1] == "next"
+             and b in body.reachable(t.get("t")) and t.get("t") is not None]
+    if len(nexts) < 1:
+        return False
+    hb = nexts[0]
+    # natural loop of the header: blocks that can reach it again
+    loop = {b for b in body.reachable(hb) if hb in body.reachable(b) and b != hb} | {hb}
+    for b in loop:
+        tt = body.term(b)
+        if tt["k"] == "call" and b != hb:
+            return False
+        if tt["k"] == "return":
+            return False
+        for st in body.blocks[b]["s"]:
+            if st["k"] == "assign" and st["p"][1] and st["p"][1][0] != "*" and \
+                    any(isinstance(e, dict) and "f" in e for e in st["p"][1]) and body.locals[st["p"][0]]["ty"].startswith("&mut") is False:
+                # a store into a field of something that is not the yielded reference
+                base_ty = body.locals[st["p"][0]]["ty"]
+                if not base_ty.startswith("&"):
+                    continue
+    return True
 
 
 def _returns_local(fn, local):
